@@ -144,6 +144,18 @@ def run_case(case, obs=None):
         if not out:
             out += same_list_again(lambda: CS.get_class(name)(opcode_of(name), represent(data), pf=represent(pf), sp=represent(sp)), buf, bytes(cmd.cdb), name, where)
             out += same_list_iter(lambda: CS.get_class(name)(opcode_of(name), iterize(data), pf=pf, sp=sp), buf, name, where)
+            # a page_0 format page described with its (non-existent) subpage spelled out as 00h: the same page, the same list
+            data0 = copy.deepcopy(data)
+            for mp in data0["mode_pages"]:
+                if not mp["spf"]:
+                    mp["sub_page_code"] = 0
+            try:
+                b0 = bytes(CS.get_class(name)(opcode_of(name), data0, pf=pf, sp=sp).dataout)
+            except Exception as e:   # noqa: BLE001
+                b0 = ("raised %s: %s" % (type(e).__name__, e)).encode()
+            if b0 != buf:
+                out.append(("%s/subpage_zero_spelled_out" % name, "%s: with sub_page_code=0 added to the page_0 format pages the list is %s, without %s"
+                            % (where, b0[:40].hex() if not b0.startswith(b"raised") else b0.decode(), buf[:40].hex())))
         return out + pll_check(name, cmd, where)
     if kind == "prout":
         _, sa, items, tid_idx = case
